@@ -1,6 +1,11 @@
 """ORD-1/2/3: exhaustive order-type case analysis of the cardinality functions."""
 import ast
 
+from ..cfg import build_cfg
+from ..logic import known, entails, reach_avoiding
+from ..model import canonical_name
+from ..symtext import Expander
+
 from ..absint import Interp, Undecided, Raised, Opaque, ListOfLen
 from ..astutil import where, calls_in, call_name
 from ..model import AnalysisError, unparse, walk_no_nested
@@ -102,7 +107,7 @@ def format_cardinality_rule(prog, rep):
     grid = settings_grid()
     n_ok = 0
     for val in grid:
-        it = Interp(f.node)
+        it = Interp(f.node, module_funcs=dict((k, v.node) for k, v in f.module.functions.items()))
         try:
             kind, res = _run(it, val)
         except Undecided as exc:
@@ -165,7 +170,7 @@ def cardinality_validation_rule(prog, rep):
     for card in cards:
         for count in [0, 1, 2, 3, 4, 10, 11]:
             obj = Opaque("obj", {"children": ListOfLen([0] * count)})
-            it = Interp(f.node, module_env={}, builtins=builtins)
+            it = Interp(f.node, module_env={}, builtins=builtins, module_funcs=dict((k, v.node) for k, v in f.module.functions.items()))
             try:
                 kind, res = _run(it, obj, card, "children", "warning", Opaque("id"))
             except Undecided as exc:
@@ -200,27 +205,43 @@ def cardinality_validation_rule(prog, rep):
             raise AnalysisError("validation.%s vanished" % name)
         rf = vmod.functions[name]
         rep.saw_function(rf)
-        calls = [c for c in calls_in(rf.node) if call_name(c) == "_cardinality_validation"]
+        g = build_cfg(rf)
+        x = Expander(rf, g)
+        calls = [c for c in calls_in(rf.node) if canonical_name(prog, rf, c.func) == "validation._cardinality_validation"]
         ok = False
         detail = "no call to _cardinality_validation"
+        call_txt = None
         for c in calls:
             if len(c.args) >= 5:
-                a = c.args
-                idn = _local_const(rf, a[4])
-                ok = (unparse(a[0]) == rf.params[0] and unparse(a[1]) == "%s.%s" % (rf.params[0], field)
-                      and isinstance(a[2], ast.Constant) and a[2].value == attr
-                      and unparse(a[3]) == "LABEL_WARNING" and idn == "IssueID.%s" % name)
-                detail = "_cardinality_validation(%s)" % ", ".join(unparse(x) for x in a)
+                a = [x.text(y) for y in c.args]
+                ok = (a[0] == rf.params[0] and a[1] == "%s.%s" % (rf.params[0], field)
+                      and a[2] == repr(attr) and a[3] == "LABEL_WARNING" and a[4] == "IssueID.%s" % name)
+                detail = "_cardinality_validation(%s)" % ", ".join(a)
+                call_txt = x.text(c)
         rep.check(ok, "ORD-2", "%s arguments" % name, detail,
                   "%s does not pass (obj, obj.%s, %r, LABEL_WARNING, IssueID.%s): %s" % (name, field, attr, name, detail),
                   rf.where, witness="the %s cardinality is tested against the wrong child list or reported under the wrong id/rank" % field)
-        # yields the error iff one was returned
-        ys = [n for n in walk_no_nested(rf.node) if isinstance(n, ast.Yield)]
-        ifs = [n for n in walk_no_nested(rf.node) if isinstance(n, ast.If)]
-        ok = len(ys) == 1 and len(ifs) == 1 and isinstance(ifs[0].test, ast.Name) and \
-            isinstance(ys[0].value, ast.Name) and ys[0].value.id == ifs[0].test.id and not ifs[0].orelse
-        rep.check(ok, "ORD-2", "%s yields exactly the returned issue" % name, "if err: yield err",
-                  "the rule does not simply yield the issue returned by _cardinality_validation", rf.where)
+        # yields the issue iff one was returned: every yield hands out the call's result on paths that know it is truthy,
+        # and the function cannot end without yielding on a path that does not know it is falsy
+        ynodes = [n0 for n0 in g.nodes if n0.kind == "stmt" and isinstance(n0.ast, ast.Expr) and isinstance(n0.ast.value, ast.Yield)]
+
+        def cl(leaf, br, x=x, call_txt=call_txt):
+            return "ISSUE" if call_txt is not None and x.text(leaf, br) == call_txt else None
+        ok = len(ynodes) >= 1 and call_txt is not None
+        for yn in ynodes:
+            v = yn.ast.value.value
+            ok = ok and v is not None and x.text(v, yn) == call_txt and known(g, yn, cl, lambda a0: a0["ISSUE"], ["ISSUE"], with_node=True)
+        if ok:
+            yids = set(n0.id for n0 in ynodes)
+
+            def edge_ok(src, kind, dst, yids=yids):
+                if dst.id in yids:
+                    return True
+                return src.kind == "branch" and kind in ("true", "false") and \
+                    entails(src.ast.test, kind == "true", lambda lf, src=src: cl(lf, src), lambda a0: not a0["ISSUE"], ["ISSUE"])
+            ok = not reach_avoiding(g, g.entry, g.exit, edge_ok, skip_kinds=("exc",))
+        rep.check(ok, "ORD-2", "%s yields exactly the returned issue" % name, "yield <issue> iff <issue>",
+                  "the rule does not yield the issue returned by _cardinality_validation exactly when there is one", rf.where)
     return n
 
 
@@ -252,7 +273,7 @@ def cardinality_roundtrip(prog, rep, which=("xml", "dict")):
                   "str(tuple)", se.where)
         for c in forms:
             text = str(c)
-            it = Interp(f.node)
+            it = Interp(f.node, module_funcs=dict((k, v.node) for k, v in f.module.functions.items()))
             try:
                 kind, res = _run(it, text)
             except Undecided as exc:
@@ -264,7 +285,7 @@ def cardinality_roundtrip(prog, rep, which=("xml", "dict")):
                       "returns %r, the writer wrote %r" % (res, c) if kind == "ok" else "raises %s" % res, f.where,
                       witness="set cardinality %r, save as XML, load" % (c,))
         for text in ["", None, "()", "(1)", "(a, b)", "(1, 2, 3)", "(-1, 2)", "(3, 1)", "None", "(None, None)"]:
-            it = Interp(f.node)
+            it = Interp(f.node, module_funcs=dict((k, v.node) for k, v in f.module.functions.items()))
             try:
                 kind, res = _run(it, text)
             except Undecided as exc:
@@ -279,7 +300,7 @@ def cardinality_roundtrip(prog, rep, which=("xml", "dict")):
         rep.saw_function(f)
         for c in forms:
             for render in (list(c), tuple(c)):
-                it = Interp(f.node)
+                it = Interp(f.node, module_funcs=dict((k, v.node) for k, v in f.module.functions.items()))
                 try:
                     kind, res = _run(it, render)
                 except Undecided as exc:
@@ -292,7 +313,7 @@ def cardinality_roundtrip(prog, rep, which=("xml", "dict")):
                           witness="set cardinality %r, save as JSON/YAML, load" % (c,))
         for val in [None, [], [1], [1, 2, 3], ["a", "b"], [-1, 2], [3, 1], "text", 3, 1.5, True, {}, [None, None],
                     ["None", 2], [1, "None"]]:
-            it = Interp(f.node)
+            it = Interp(f.node, module_funcs=dict((k, v.node) for k, v in f.module.functions.items()))
             try:
                 kind, res = _run(it, val)
             except Undecided as exc:
